@@ -177,101 +177,115 @@ func c10RecvLoop(c *Ctx, a *clientAnchors) {
 			look = l
 		}
 	})
-	if look != nil {
-		okv := extractOf(look, 1)
-		found := false
-		for b := range loop {
-			if iff := ifOf(b); iff != nil && okv != nil {
-				if tE, _, ok := boolEdgesOf(iff, func(v ssa.Value) bool { return v == ssa.Value(okv) }); ok {
-					found = true
-					r.Check(mustPassEdges(fn, sb, tE), "C10-K1", key("delivery only when the entry is present"), c.P.ipos(iff), "select unreachable without the ok edge", "delivery reachable although the lookup did not find an entry")
+	// atoms of the split graph (sgraph.go): conditions are recognised whether they are tested by nested ifs,
+	// by `a && b`, or as switch cases
+	atoms := atomsIn(fn)
+	passOnly := func(pred func(atomFact) bool) bool {
+		return mustPassAtoms(fn, sb, func(as []atomFact) bool {
+			for _, x := range as {
+				if pred(x) {
+					return true
 				}
 			}
+			return false
+		})
+	}
+	exists := func(pred func(atomFact) bool) bool {
+		for _, x := range atoms {
+			if pred(x) {
+				return true
+			}
 		}
-		if !found {
+		return false
+	}
+	isNilC := func(v ssa.Value) bool { k, ok := v.(*ssa.Const); return ok && k.Value == nil }
+	// nilAtom: x is `v == nil` / `v != nil` for a v satisfying isV; returns whether the atom (with its value) means v is nil
+	nilAtom := func(x atomFact, isV func(ssa.Value) bool) (isNil bool, ok bool) {
+		bo, isBo := x.v.(*ssa.BinOp)
+		if !isBo || (bo.Op != token.EQL && bo.Op != token.NEQ) {
+			return false, false
+		}
+		var v ssa.Value
+		if isNilC(bo.Y) {
+			v = bo.X
+		} else if isNilC(bo.X) {
+			v = bo.Y
+		} else {
+			return false, false
+		}
+		if !isV(v) {
+			return false, false
+		}
+		return (bo.Op == token.EQL) == x.val, true
+	}
+	if look != nil {
+		okv := extractOf(look, 1)
+		present := func(x atomFact) bool { return okv != nil && x.v == ssa.Value(okv) && x.val }
+		if okv == nil || !exists(func(x atomFact) bool { return x.v == ssa.Value(okv) }) {
 			r.Violation("C10-K1", key("presence of the entry not tested"), c.P.ipos(look), "the comma-ok result of the pending lookup is not branched on")
+		} else {
+			r.Check(passOnly(present), "C10-K1", key("delivery only when the entry is present"), c.P.ipos(look), "select unreachable without an edge on which ok is true", "delivery reachable although the lookup did not find an entry")
 		}
 	}
 	// K2 filters
-	var decOK Edge
-	foundDec := false
-	for b := range loop {
-		if iff := ifOf(b); iff != nil {
-			if nilE, _, ok := nilEdgesOf(iff, func(v ssa.Value) bool { return v == ssa.Value(decErr) }); ok {
-				decOK, foundDec = nilE, true
-			}
-		}
-	}
-	if !foundDec {
+	isDecErr := func(v ssa.Value) bool { return v == ssa.Value(decErr) }
+	decOKAtom := func(x atomFact) bool { n, ok := nilAtom(x, isDecErr); return ok && n }
+	if !exists(func(x atomFact) bool { _, ok := nilAtom(x, isDecErr); return ok }) {
 		r.Violation("C10-K2", key("decode error not tested"), c.P.ipos(dec), "the decoder's error is not branched on before delivery")
 	} else {
-		r.Check(mustPassEdges(fn, sb, decOK), "C10-K2", key("delivery only after decode success"), c.P.ipos(dec), "select unreachable without err==nil edge", "a datagram that failed to decode can reach delivery")
+		r.Check(passOnly(decOKAtom), "C10-K2", key("delivery only after decode success"), c.P.ipos(dec), "select unreachable without an edge on which err == nil", "a datagram that failed to decode can reach delivery")
 	}
 	if a.short == "nclient4" {
-		// opcode
-		foundOp := false
-		for b := range loop {
-			iff := ifOf(b)
-			if iff == nil {
-				continue
-			}
-			bo, ok := iff.Cond.(*ssa.BinOp)
-			if !ok || (bo.Op != token.EQL && bo.Op != token.NEQ) {
-				continue
+		// opcode: an atom comparing msg.OpCode with BOOTREPLY (2)
+		opf := "field[OpCode](" + msgSx + ")"
+		opAtom := func(x atomFact) (isReply bool, ok bool) {
+			bo, isBo := x.v.(*ssa.BinOp)
+			if !isBo || (bo.Op != token.EQL && bo.Op != token.NEQ) {
+				return false, false
 			}
 			xs, ys := sx.Of(bo.X).String(), sx.Of(bo.Y).String()
-			opf := "field[OpCode](" + msgSx + ")"
-			isReply := func(s string) bool { return s == "const(2)" }
-			if (xs == opf && isReply(ys)) || (ys == opf && isReply(xs)) {
-				foundOp = true
-				e := Edge{b, b.Succs[0]}
-				if bo.Op == token.NEQ {
-					e = Edge{b, b.Succs[1]}
-				}
-				r.Check(mustPassEdges(fn, sb, e), "C10-K2", key("delivery only for BOOTREPLY"), c.P.ipos(iff), "select unreachable without OpCode==BootReply edge", "a message whose opcode is not BOOTREPLY can reach delivery")
+			if !((xs == opf && ys == "const(2)") || (ys == opf && xs == "const(2)")) {
+				return false, false
 			}
+			return (bo.Op == token.EQL) == x.val, true
 		}
-		if !foundOp {
+		if !exists(func(x atomFact) bool { _, ok := opAtom(x); return ok }) {
 			r.Violation("C10-K2", key("opcode filter missing"), c.P.ipos(dec), "no comparison of msg.OpCode with OpcodeBootReply (2) guards delivery")
+		} else {
+			r.Check(passOnly(func(x atomFact) bool { y, ok := opAtom(x); return ok && y }), "C10-K2", key("delivery only for BOOTREPLY"), c.P.ipos(dec), "select unreachable without an edge on which OpCode == BootReply", "a message whose opcode is not BOOTREPLY can reach delivery")
 		}
-		// hardware address
-		var nilE, eqT Edge
-		haveNil, haveEq := false, false
-		for b := range loop {
-			iff := ifOf(b)
-			if iff == nil {
-				continue
+		// hardware address: delivery needs ifaceHWAddr == nil or bytes.Equal(ifaceHWAddr, msg.ClientHWAddr)
+		isHW := func(v ssa.Value) bool {
+			if ct, ok := v.(*ssa.ChangeType); ok {
+				v = ct.X
 			}
-			if ne, _, ok := nilEdgesOf(iff, func(v ssa.Value) bool { return a.isClientFieldLoad(v, "ifaceHWAddr") }); ok {
-				nilE, haveNil = ne, true
-			}
-			if tE, _, ok := boolEdgesOf(iff, func(v ssa.Value) bool {
-				cl, ok := v.(*ssa.Call)
-				if !ok || !isFuncCall(cl.Common(), "bytes", "Equal") {
-					return false
-				}
-				s0, s1 := sx.Of(cl.Call.Args[0]).String(), sx.Of(cl.Call.Args[1]).String()
-				hw := "field[ClientHWAddr](" + msgSx + ")"
-				isIf := func(v ssa.Value) bool {
-					if ct, ok := v.(*ssa.ChangeType); ok {
-						v = ct.X
-					}
-					return a.isClientFieldLoad(v, "ifaceHWAddr")
-				}
-				return (s0 == hw && isIf(cl.Call.Args[1])) || (s1 == hw && isIf(cl.Call.Args[0]))
-			}); ok {
-				eqT, haveEq = tE, true
-			}
+			return a.isClientFieldLoad(v, "ifaceHWAddr")
 		}
-		if !haveEq {
+		eqAtom := func(x atomFact) (isEq bool, ok bool) {
+			cl, isCl := x.v.(*ssa.Call)
+			if !isCl || !isFuncCall(cl.Common(), "bytes", "Equal") {
+				return false, false
+			}
+			s0, s1 := sx.Of(cl.Call.Args[0]).String(), sx.Of(cl.Call.Args[1]).String()
+			hw := "field[ClientHWAddr](" + msgSx + ")"
+			if !((s0 == hw && isHW(cl.Call.Args[1])) || (s1 == hw && isHW(cl.Call.Args[0]))) {
+				return false, false
+			}
+			return x.val, true
+		}
+		if !exists(func(x atomFact) bool { _, ok := eqAtom(x); return ok }) {
 			r.Violation("C10-K2", key("hardware-address filter missing"), c.P.ipos(dec), "no bytes.Equal(c.ifaceHWAddr, msg.ClientHWAddr) guards delivery")
 		} else {
-			edges := []Edge{eqT}
-			if haveNil {
-				edges = append(edges, nilE)
-			}
-			r.Check(mustPassEdges(fn, sb, edges...), "C10-K2", key("delivery only for the client's hardware address (or none configured)"), c.P.ipos(sel),
-				"select unreachable without {ifaceHWAddr==nil, Equal==true}", "a reply for another hardware address can reach delivery")
+			r.Check(passOnly(func(x atomFact) bool {
+				if y, ok := eqAtom(x); ok && y {
+					return true
+				}
+				if n, ok := nilAtom(x, isHW); ok && n {
+					return true
+				}
+				return false
+			}), "C10-K2", key("delivery only for the client's hardware address (or none configured)"), c.P.ipos(sel),
+				"select unreachable without an edge on which ifaceHWAddr == nil or Equal is true", "a reply for another hardware address can reach delivery")
 		}
 	}
 	// K8: close(p.ch) only with delete, under lock
